@@ -4,6 +4,7 @@ from qvlib.facts import op_place
 from qvlib.paths import Flow, agg_sites, consumer_calls, discr_switches, diverging_blocks, err_blocks, explore, path_desc, result_switch_edges
 
 CRATES = None  # whole workspace: who-may-construct / who-may-write rules are workspace-wide
+OPTIONAL_FNS = ("Worker::notify_result", "Worker::deliver_message", "Worker::update_program")      # private Worker helpers that may be inlined into their only caller
 
 EXEC = "quiver_core::executor::Executor"
 PARKED = ("spawning", "selecting", "effecting")
@@ -290,10 +291,11 @@ def r3_pipeline(ctx):
     ctx.check(bad is None and sends, R, hd.key + "|every-ok-path-sends", "every non-error path through handle_deliver forwards the message",
               "a normal return of handle_deliver skips the forward: %s" % path_desc(hd, bad), hd.loc(0))
     # the worker side: Command::DeliverMessage handler calls notify_message exactly once
-    dm = F.body("quiver_environment::worker::Worker::deliver_message")
+    dmk = "quiver_environment::worker::Worker::deliver_message"
+    dm = F.body(dmk if dmk in F.fns else "quiver_environment::worker::Worker::handle_command")      # helper inlined by hand into the command handler
     nm = [bi for bi, _ in dm.calls_to("Executor::notify_message")]
-    bad = explore(dm, [0], avoid=nm, stop=err_blocks(dm) | diverging_blocks(dm), want="return")
-    ctx.check(len(nm) == 1 and bad is None, R, dm.key + "|notify_message", "deliver_message calls Executor::notify_message exactly once on every non-error path",
+    bad = explore(dm, [0], avoid=nm, stop=err_blocks(dm) | diverging_blocks(dm), want="return") if dm.key == dmk else None
+    ctx.check(len(nm) == 1 and bad is None, R, dmk + "|notify_message", "deliver_message calls Executor::notify_message exactly once on every non-error path",
               "deliver_message may return normally without notify_message (%d call sites)" % len(nm), dm.loc(0))
     callers = [k for k, _b in F.callers_of("quiver_core::executor::Executor::notify_message")]
     ctx.check(sorted(set(callers)) == [dm.key], R, "callers(notify_message)", "notify_message is called only from Worker::deliver_message",
@@ -641,6 +643,13 @@ def r6_await_registration(ctx):
     u = F.body("quiver_environment::worker::Worker::update_await_results")
     ma = [bi for bi, _t in u.calls_to("Executor::mark_active")]
     nr = [bi for bi, _t in u.calls_to("Worker::notify_result")]
+    if "quiver_environment::worker::Worker::notify_result" not in F.fns:
+        # helper inlined by hand: "notifies a result" = hands it to the executor, or (a failed target) writes the awaiter's result
+        nr = [bi for bi, _t in u.calls_to("Executor::notify_result")]
+        # the failed-target arm starts by looking the awaiter up (an awaiter that is gone or already finished needs no wake-up)
+        nr += [bi for bi, _t in u.calls_to("Executor::get_process_mut")]
+        nr += [bi for bi, si, s in u.stmts() if s["k"] == "assign" and [e for e in s["p"]["pr"] if e[0] == "f"] and
+               [e for e in s["p"]["pr"] if e[0] == "f"][-1][1] == "result" and ([e for e in s["p"]["pr"] if e[0] == "f"][-1][2] or "").endswith("process::Process")]
     bad = explore(u, [0], avoid=ma + nr, stop=err_blocks(u) | diverging_blocks(u), want="return")
     ctx.check(bool(ma) and bool(nr) and bad is None, R, u.key + "|wake", "update_await_results either notifies a result or marks the awaiter active on every non-error path",
               "update_await_results can return without waking the awaiter: %s" % path_desc(u, bad), u.loc(0))
@@ -686,6 +695,8 @@ def r7_actions_forwarded(ctx, R="R-C04-7"):
                   ha.loc(entry))
     ctx.floor(R, "Action arms forwarding an Event", n, 4)
     dm = "quiver_environment::worker::Worker::deliver_message"
+    if dm not in F.fns:
+        dm = "quiver_core::executor::Executor::notify_message"      # helper inlined by hand: the handler calls the executor entry directly
     callers = sorted({k.split("::{closure")[0] for k, _b in F.callers_of(dm)})
     ctx.check(callers == ["quiver_environment::worker::Worker::handle_command"], R, "callers(deliver_message)",
               "Worker::deliver_message is called only from the Command handler (messages reach a mailbox only after the environment routed them)",
